@@ -886,10 +886,24 @@ impl<M: AlignMarker> Ctx<M> {
                 if a < NRC && b < NWEAK && self.weaks[b].is_none() {
                     if let Some(src) = self.rcs[a].as_ref() {
                         // d = 1 (and guard c live): through a Snapshot and the conversion impl
+                        // C12, field independence at the one place where a flag of the count word is
+                        // set: a downgrade adds a weak share (and, the first time, the WEAKED flag);
+                        // the stamp in the same word is none of its business. Judged only when no
+                        // other thread ran during the call.
+                        let st_addr = shadow().obj_of_word(circ::verif::rc_word(src)).map(|o| shadow().objs[o as usize].state_addr).unwrap_or(0);
+                        let (st0, sw0) = (if st_addr != 0 { crate::shadow::read_state(st_addr) } else { 0 }, sim().stats.switches);
                         let w = match (d, self.guards.get(c).and_then(|g| g.as_ref())) {
                             (1, Some(gs)) => Weak::from(src.snapshot(&gs.g)),
                             _ => src.downgrade(),
                         };
+                        if st_addr != 0 && sim().stats.switches == sw0 {
+                            let st1 = crate::shadow::read_state(st_addr);
+                            if (st0 ^ st1) >> crate::shadow::ST_EPOCH_SHIFT != 0 {
+                                let det = format!("a downgrade changed the stamp field of the count word from {} to {} (word {:#018x} -> {:#018x}) with no other thread running in between", st0 >> crate::shadow::ST_EPOCH_SHIFT, st1 >> crate::shadow::ST_EPOCH_SHIFT, st0, st1);
+                                shadow().soft("C12", "downgrade-changed-stamp", det);
+                            }
+                            sim().probe("downgrade_stamp_checked");
+                        }
                         if let Some(ob) = shadow().obj_of_word(circ::verif::weak_word(&w)) {
                             shadow().acquire_weak(ob, if d == 1 { "Weak::from(Snapshot)" } else { "Rc::downgrade" });
                         }
